@@ -140,7 +140,7 @@ pub fn synth(w: &World, ty: &str, addresses: &[Address]) -> Option<Vec<Val>> {
         "u32" => vec![w.v(0u32), w.v(1u32)],
         "u64" => vec![w.v(0u64), w.v(1u64)],
         "u128" => vec![w.v(0u128), w.v(1u128)],
-        "i128" => vec![w.v(0i128), w.v(1i128)],
+        "i128" => vec![w.v(0i128), w.v(1i128), w.v(-1i128)],
         "bool" => vec![w.v(false), w.v(true)],
         _ if t.starts_with("Option<") => vec![Val::VOID.to_val()],
         _ if t.starts_with("Vec<") => vec![to_val(env, &svec(vec![]))],
